@@ -44,12 +44,33 @@ Classes == { ClassT(Sa, Sb, al, fo, "none", ta) : Sa \in SUBSET Srcs, Sb \in SUB
            \* K(M3(G3)): the grandparent declared both fields with other aliases ("g_a", "g_b"); the middle class's are in effect
            \cup { Chain3(ClassT(Sa, Sb, al, fo, "none", <<"int">>)) : Sa \in SUBSET {"alias", "aalias"}, Sb \in SUBSET {"alias"}, al \in BOOLEAN, fo \in BOOLEAN }
 
+\* ---- two SIBLING classes that inherit ONE Config object from a base model (Config.aliases = {id: ident}).  Group gives its
+\* field "a" a field-level alias, User declares a plain "a": an alias belongs to the field that declares it -- whichever sibling
+\* is compiled first (both declaration orders of the holder), and with either kind of field-level source.
+ShCfg(al, fo) == << <<"aliases", << <<"id", "ident">> >> >> >>
+                 \o (IF al THEN << <<"allow_deserialization_not_by_alias", TRUE>> >> ELSE <<>>)
+                 \o (IF fo THEN << <<"forbid_extra_keys", TRUE>> >> ELSE <<>>)
+IdF == <<"id", <<"int">>, <<"val", I(0)>>, <<>> >>
+BaseM(al, fo) == <<"dc", "BaseM", <<IdF>>, ShCfg(al, fo)>>
+Sib(name, fopts, al, fo) == <<"dc", name, <<IdF, <<"a", <<"int">>, <<"val", I(1)>>, fopts>> >>,
+                              ShCfg(al, fo) \o << <<"bases", <<BaseM(al, fo)>> >>, <<"no_config", TRUE>> >> >>
+SibHolder(src, al, fo, groupFirst) ==
+  LET g == <<"g", Sib("Group", << <<src, "a_" \o src>> >>, al, fo), <<"req">>, <<>> >>
+      u == <<"u", Sib("User", <<>>, al, fo), <<"req">>, <<>> >>
+  IN <<"dc", "SH", IF groupFirst THEN <<g, u>> ELSE <<u, g>>, <<>> >>
+SibHolders == { SibHolder(src, al, fo, gf) : src \in {"alias", "aalias"}, al \in BOOLEAN, fo \in BOOLEAN, gf \in BOOLEAN }
+SibCand == <<"a", "a_alias", "a_aalias", "id", "ident">>
+SibPart(K) == LET idx == SelectSeq([i \in DOMAIN SibCand |-> i], LAMBDA i : i \in K) IN
+              Dct([n \in DOMAIN idx |-> <<S(SibCand[idx[n]]), KeyVal(idx[n])>>])
+SibInputs == { Dct(<< <<S("g"), SibPart(Kg)>>, <<S("u"), SibPart(Ku)>> >>) : Kg \in SUBSET (DOMAIN SibCand), Ku \in SUBSET (DOMAIN SibCand) }
+
 InputFor(K) == LET idx == SelectSeq([i \in DOMAIN Candidates |-> i], LAMBDA i : i \in K) IN
                Dct([n \in DOMAIN idx |-> <<S(Candidates[idx[n]]), KeyVal(idx[n])>>])
 
 Init == T = <<"start">> /\ v = <<"nov">> /\ kind = "start"
-Next == \/ kind = "start" /\ T' \in Classes /\ v' = v /\ kind' = "type"
-        \/ kind = "type" /\ T' = T /\ v' \in { InputFor(K) : K \in SUBSET (DOMAIN Candidates) } /\ kind' = "input"
+Next == \/ kind = "start" /\ T' \in Classes \cup SibHolders /\ v' = v /\ kind' = "type"
+        \/ kind = "type" /\ T[2] # "SH" /\ T' = T /\ v' \in { InputFor(K) : K \in SUBSET (DOMAIN Candidates) } /\ kind' = "input"
+        \/ kind = "type" /\ T[2] = "SH" /\ T' = T /\ v' \in SibInputs /\ kind' = "input"
 
 Dec == Unpack(T, DefaultCx, v)
 
@@ -57,18 +78,25 @@ Dec == Unpack(T, DefaultCx, v)
 \* exactly one key decides each field; a result never contains a value of a key outside the accepted set
 Allowed == { k[2] : k \in AllowedKeys(T) }
 ReadsOnlyAllowed ==
-  kind = "input" /\ ~IsUnknown(Dec) /\ IsOk(Dec) =>
+  kind = "input" /\ T[2] # "SH" /\ ~IsUnknown(Dec) /\ IsOk(Dec) =>
     \A i \in 1..2 : LET x == Dec[2][3][i] IN
        x = I(0) \/ \E c \in DOMAIN Candidates : KeyVal(c) = x /\ Candidates[c] \in Allowed /\ PairsHas(v[2], S(Candidates[c]))
 \* with forbid_extra_keys the error lists exactly the unexpected keys
 ExtraExact ==
-  kind = "input" /\ ~IsUnknown(Dec) /\ ~IsOk(Dec) /\ Dec[2][1] = "Extra" =>
+  kind = "input" /\ T[2] # "SH" /\ ~IsUnknown(Dec) /\ ~IsOk(Dec) /\ Dec[2][1] = "Extra" =>
     Dec[2][2] = { v[2][i][1] : i \in DOMAIN v[2] } \ AllowedKeys(T)
 \* the alias wins over the name when both are present
 AliasWins ==
-  kind = "input" /\ ~IsUnknown(Dec) /\ IsOk(Dec) =>
+  kind = "input" /\ T[2] # "SH" /\ ~IsUnknown(Dec) /\ IsOk(Dec) =>
     \A i \in 1..2 : LET f == DcFields(T)[i] IN
        (FAlias(T, f) # "#none" /\ PairsHas(v[2], S(FAlias(T, f)))) => Dec[2][3][i] = PairsGet(v[2], S(FAlias(T, f)))
 
+\* siblings: the plain field "a" of User is read from "a" only -- never from Group's field-level alias
+SiblingAliasOwn ==
+  (kind = "input" /\ T[2] = "SH" /\ IsOk(Dec)) =>
+    LET ui == IF T[3][1][1] = "u" THEN 1 ELSE 2
+        upart == PairsGet(v[2], S("u"))
+        ua == Dec[2][3][ui][3][2] IN
+    ua = (IF PairsHas(upart[2], S("a")) THEN PairsGet(upart[2], S("a")) ELSE I(1))
 EmitInv == kind = "input" => PrintT(ToJson(<<"inp", T, v, Dec>>))
 =============================================================================
